@@ -183,12 +183,13 @@ FilterRef(f, v, a) ==
          LET n == IntOf(a) m == IF v.k = "int" /\ v.n < 0 THEN 0 - v.n ELSE v.n d == IntStr(m) IN
          IF v.k # "int" \/ n < 1 \/ n > Len(d) THEN v ELSE I((m \div (10 ^ (n - 1))) % 10)
     [] f = "pluralize" ->    \* a: "" (default s), "es", or "y,ies"
-         IF v.k # "int" THEN ErrV("pluralize works on numbers")
-         ELSE LET parts == SplitOn(StrOf(a), ",", <<>>, <<>>) IN
-              IF StrOf(a) = <<>> THEN S(IF v.n = 1 THEN <<>> ELSE <<"s">>)
+         \* (singular for exactly one: 1 and 1.0, not 1.5)
+         IF v.k \notin {"int", "fix"} THEN ErrV("pluralize works on numbers")
+         ELSE LET parts == SplitOn(StrOf(a), ",", <<>>, <<>>) one == (v.k = "int" /\ v.n = 1) \/ (v.k = "fix" /\ v.n = 1000) IN
+              IF StrOf(a) = <<>> THEN S(IF one THEN <<>> ELSE <<"s">>)
               ELSE IF Len(parts) > 2 THEN ErrV("pluralize takes at most 2 forms")
-              ELSE IF Len(parts) = 1 THEN S(IF v.n = 1 THEN <<>> ELSE parts[1])
-              ELSE S(IF v.n = 1 THEN parts[1] ELSE parts[2])
+              ELSE IF Len(parts) = 1 THEN S(IF one THEN <<>> ELSE parts[1])
+              ELSE S(IF one THEN parts[1] ELSE parts[2])
     [] f = "yesno" ->
          LET parts == IF StrOf(a) = <<>> THEN <<<<"y", "e", "s">>, <<"n", "o">>, <<"m", "a", "y", "b", "e">>>> ELSE SplitOn(StrOf(a), ",", <<>>, <<>>) IN
          IF Len(parts) < 2 \/ Len(parts) > 3 THEN ErrV("yesno takes 2 or 3 choices")
